@@ -103,8 +103,40 @@ func (a *clusterACLs) anyAllowed(principal, host string, resourceType kmsg.ACLRe
 			!acl.matchesOp(op) {
 			continue
 		}
-		if acl.permission == kmsg.ACLPermissionTypeAllow {
+		if acl.permission == kmsg.ACLPermissionTypeAllow && !a.denyDominates(acl, principal, host, op) {
 			return true
+		}
+	}
+	return false
+}
+
+// denyDominates returns whether a DENY entry matching the principal, host,
+// and op covers every resource name the allow entry covers, mirroring
+// Kafka's authorizeByResourceType: a literal "*" DENY dominates everything,
+// a literal DENY dominates the same literal ALLOW, and a prefixed DENY
+// dominates any literal or prefixed ALLOW whose name starts with its prefix.
+func (a *clusterACLs) denyDominates(allow *acl, principal, host string, op kmsg.ACLOperation) bool {
+	allowWildcard := allow.pattern == kmsg.ACLResourcePatternTypeLiteral && allow.resourceName == "*"
+	for i := range a.acls {
+		deny := &a.acls[i]
+		if deny.permission != kmsg.ACLPermissionTypeDeny ||
+			deny.resourceType != allow.resourceType ||
+			!deny.matchesPrincipal(principal) ||
+			!deny.matchesHost(host) ||
+			!deny.matchesOp(op) {
+			continue
+		}
+		switch deny.pattern {
+		case kmsg.ACLResourcePatternTypeLiteral:
+			if deny.resourceName == "*" ||
+				allow.pattern == kmsg.ACLResourcePatternTypeLiteral && deny.resourceName == allow.resourceName {
+				return true
+			}
+		case kmsg.ACLResourcePatternTypePrefixed:
+			if !allowWildcard && strings.HasPrefix(allow.resourceName, deny.resourceName) {
+				return true
+			}
+		default: // other pattern types match no resource
 		}
 	}
 	return false
